@@ -89,13 +89,19 @@ PostClauses(e) ==
 Later == prof.passes = 2 /\ pass >= 1
 Seen == {v[1] : v \in {w \in viol : w[3] = Later}}
 
-TraceNext ==
+Ev == T.ev[l]       \* the event being consumed
+
+(* One step of a trace specification: the total effect of the logged call, plus the   *)
+(* failing clauses - those of the core specification and `extra`, the clauses of a    *)
+(* specification extending this one (evaluated lazily, only when l <= TLen).          *)
+Step(extra) ==
   /\ l <= TLen
-  /\ LET e == T.ev[l] IN
-       /\ CallEffect(e)
-       /\ ObsEffect(EvObs(e))
-       /\ viol' = viol \cup {<<c, l, Later>> : c \in (CallClauses(e) \cup PostClauses(e)) \ Seen}
+  /\ CallEffect(Ev)
+  /\ ObsEffect(EvObs(Ev))
+  /\ viol' = viol \cup {<<c, l, Later>> : c \in (CallClauses(Ev) \cup PostClauses(Ev) \cup extra) \ Seen}
   /\ l' = l + 1 /\ tid' = tid
+
+TraceNext == Step({})
 
 TraceSpec == TraceInit /\ [][TraceNext]_vars
 
